@@ -552,11 +552,11 @@ func main() {
 		}
 		return reqs
 	}
-	for k := 0; k < hv.Scale(1100, 20000); k++ {
+	for k := 0; k < hv.Scale(1100, 6000); k++ {
 		emitPrincipal("random-principal", genHistory(8, false), false)
 	}
 	// 3. the real principal against the real target instance
-	for k := 0; k < hv.Scale(500, 8000); k++ {
+	for k := 0; k < hv.Scale(500, 2500); k++ {
 		emitPrincipal("random-principal+target", genHistory(6, true), true)
 	}
 	// 4. the real target instance alone: exhaustive check/add/malformed histories of length <= 3, then random
@@ -577,7 +577,7 @@ func main() {
 	for n := 1; n <= 3; n++ {
 		trec(nil, n)
 	}
-	for k := 0; k < hv.Scale(250, 5000); k++ {
+	for k := 0; k < hv.Scale(250, 1500); k++ {
 		n := 1 + r.Intn(7)
 		pool := pool
 		if r.Chance(15) {
